@@ -76,7 +76,7 @@ def run_conv_basis(case, seed, R):
         want = np.zeros(shape)
         want[(pi + qi - o0) % n0, (pj + qj - o1) % n1] = 1.0
         got = R.call(convolution.conv, delta(shape, p), delta(shape, q))
-        R.expect_close(got, want, 64 * EPS, sig, f'conv(delta{(pi, pj)}, delta{(qi, qj)}) in {shape}')
+        R.expect_close(got, want, 256 * EPS, sig, f'conv(delta{(pi, pj)}, delta{(qi, qj)}) in {shape}')
         if got is not FAILED:
             R.expect(np.asarray(got).dtype.kind == 'f', 'conv:dtype', f'conv of real arrays returned dtype {np.asarray(got).dtype}')
     R.nontrivial(N > 1)
@@ -349,7 +349,7 @@ def check_psf(R, psf, dx, form, label, s):
     p = R.call(otf.ptf_from_psf, *a)
     t = R.call(otf.otf_from_psf, *a)
     want = ref_otf(psf)
-    tol = 64 * EPS
+    tol = 256 * EPS
     M = P = T = None
     if m is not FAILED:
         M = getattr(m, 'data', None)
@@ -449,6 +449,6 @@ def plan(tier, seed):
                   'all-ones/empty list == identity; dense object; list == product (implementation against itself)'),
         ScopeUnit('mtf', mtf_cases, run_mtf,
                   f'every shape in [1..{B}]^2: PSF = EVERY unit impulse (array and RichData form), EVERY pair of impulses with weights {{1,3}}, '
-                  'three seeded dense / sparse non-negative arrays: MTF==|OTF_ref|, MTF[o]==1 exactly, MTF<=1+64eps, cyclic point symmetry, '
+                  'three seeded dense / sparse non-negative arrays: MTF==|OTF_ref|, MTF[o]==1 exactly, MTF<=1+256eps, cyclic point symmetry, '
                   'OTF==reference, PTF in radians consistent with the reference phase, OTF==MTF*exp(i*PTF)'),
     ]
